@@ -391,3 +391,198 @@ Section SampleLine.
       + eapply Permutation_NoDup; [exact Hperm|exact Hnd].
   Qed.
 End SampleLine.
+
+(* ---------- samples whose name is not a legacy name: {"name"} and {"name",labels} ---------- *)
+Lemma quoted_no_eq v : nuq0 [EQS] (quote (escape v)) false false = None.
+Proof.
+  destruct (quoted_scan [EQS] v [] eq_refl) as [H _]. rewrite app_nil_r in H. exact H.
+Qed.
+
+Lemma strip_quoted v : strip (quote (escape v)) = quote (escape v).
+Proof. unfold quote. apply strip_delimited; reflexivity. Qed.
+
+(* the quoted metric name as a label term: recorded under __name__ *)
+Lemma parse_one_label_name nm :
+  parse_one_label false true (quote (escape nm)) [] = Ok [(S_name_key, nm)].
+Proof.
+  unfold parse_one_label. rewrite next_unquoted_char_rel, quoted_no_eq.
+  change ((-1 =? -1)%Z) with true. cbv iota. cbn [bind negb andb].
+  rewrite strip_quoted. unfold quote at 1. change (DQ =? DQ) with true. cbn [negb].
+  assert (Hfc : (match escape nm ++ [DQ] with
+                 | [] => Ok 1%Z
+                 | _ => match find_close (escape nm ++ [DQ]) 1%Z false with Some i => Ok i | None => Err ValueError end
+                 end) = Ok (1 + Z.of_nat (length (escape nm)))%Z).
+  { rewrite find_close_escape. destruct (escape nm ++ [DQ]) eqn:E; [destruct (escape nm); discriminate|reflexivity]. }
+  rewrite Hfc. cbn [bind].
+  assert (Hz : zlen (quote (escape nm)) = (1 + Z.of_nat (length (escape nm)) + 1)%Z)
+    by (unfold quote, zlen; cbn [length]; rewrite app_length; cbn [length]; lia).
+  rewrite Hz, Z.eqb_refl. cbn [negb].
+  replace (slice_to (quote (escape nm)) (1 + Z.of_nat (length (escape nm)) + 1)) with (quote (escape nm)).
+  2:{ rewrite <- Hz. unfold zlen. rewrite slice_to_firstn by lia. rewrite firstn_all. reflexivity. }
+  unfold unquote_unescape. rewrite unq_quoted. cbn [bind]. rewrite str_eqb_refl. cbn [bind d_mem d_find]. reflexivity.
+Qed.
+
+Lemma nt_tail_quoted_name nm (r : list (str * str)) :
+  nt_tail false (quote (escape nm) ++ rest_text r) = Ok (quote (escape nm), rest_text r).
+Proof.
+  unfold nt_tail. rewrite next_unquoted_char_rel.
+  destruct (quoted_scan [COMMA; RBRACE] nm (rest_text r) eq_refl) as [Hq _]. rewrite Hq.
+  destruct r as [|kv r2].
+  - cbn [rest_text nuq0 option_map]. rewrite Z.eqb_refl, app_nil_r. unfold zlen.
+    rewrite slice_to_firstn, firstn_all by lia. rewrite slice_from_skipn, skipn_all by lia.
+    rewrite strip_quoted. unfold quote. reflexivity.
+  - cbn [rest_text nuq0]. change (COMMA =? BS) with false. change (COMMA =? DQ) with false.
+    cbn [andb negb mem_char]. change (COMMA =? COMMA) with true. cbn [orb option_map]. rewrite Nat.add_0_r.
+    replace (Z.of_nat (length (quote (escape nm))) =? -1)%Z with false by lia.
+    rewrite slice_app_prefix, (slice_app_suffix _ _ _ eq_refl), strip_quoted, strip_comma_ltext.
+    unfold quote. reflexivity.
+Qed.
+
+Lemma plf_step l g f c r om labels :
+  parse_labels_fuel l g (S f) (c :: r) om labels =
+  (do '(term, sub') <- next_term (c :: r) om;
+   match term with
+   | [] => if om then Err ValueError else parse_labels_fuel l g f sub' om labels
+   | _ => do labels' <- parse_one_label l g term labels; parse_labels_fuel l g f sub' om labels'
+   end).
+Proof. reflexivity. Qed.
+
+Lemma parse_labels_quoted_name nm kvs :
+  Forall key_ok (map fst kvs) -> NoDup (map fst kvs) ->
+  parse_labels false true (quote (escape nm) ++ rest_text kvs) false = Ok ((S_name_key, nm) :: kvs).
+Proof.
+  intros Hok Hnd. unfold parse_labels.
+  assert (Hshape : exists mid, quote (escape nm) ++ rest_text kvs = DQ :: mid ++ [DQ]).
+  { destruct kvs as [|kv r]; [cbn [rest_text]; rewrite app_nil_r; exists (escape nm); reflexivity|].
+    cbn [rest_text]. destruct (ltext_shape kv r) as (c & mid & -> & _).
+    exists (escape nm ++ DQ :: COMMA :: c :: mid). unfold quote. cbn [app]. rewrite <- !app_assoc. reflexivity. }
+  assert (Hstrip : strip (quote (escape nm) ++ rest_text kvs) = quote (escape nm) ++ rest_text kvs)
+    by (destruct Hshape as [mid ->]; apply strip_delimited; reflexivity).
+  rewrite Hstrip. unfold quote at 1. cbn [app andb].
+  change (DQ :: (escape nm ++ [DQ]) ++ rest_text kvs) with (quote (escape nm) ++ rest_text kvs).
+  set (sub := quote (escape nm) ++ rest_text kvs).
+  assert (Hlen : (length kvs + 2 <= length sub)%nat).
+  { subst sub. rewrite app_length. unfold quote. cbn [length]. rewrite app_length. cbn [length].
+    destruct kvs as [|kv r]; [cbn; lia|]. cbn [rest_text length]. pose proof (ltext_length (kv :: r)). cbn [length] in *. lia. }
+  assert (Hsub : exists r', sub = DQ :: r') by (subst sub; unfold quote; eexists; reflexivity).
+  destruct Hsub as [r' Es]. rewrite Es. rewrite plf_step.
+  assert (Hnt : next_term (DQ :: r') false = Ok (quote (escape nm), rest_text kvs)).
+  { rewrite <- Es. subst sub. unfold next_term.
+    assert (Hi : index (quote (escape nm) ++ rest_text kvs) 0 = Ok DQ) by (unfold quote; apply index0_nonempty).
+    rewrite Hi. cbn [bind]. change (DQ =? COMMA) with false. cbv iota. fold (nt_tail false). apply nt_tail_quoted_name. }
+  rewrite Hnt. cbn [bind]. unfold quote at 1. rewrite parse_one_label_name. cbn [bind].
+  rewrite Es in Hlen.
+  destruct kvs as [|kv r].
+  - cbn [rest_text]. reflexivity.
+  - cbn [rest_text].
+    match goal with |- parse_labels_fuel false true ?f _ false _ = _ =>
+      pose proof (loop_ltext (kv :: r) f [(S_name_key, nm)] false) as HL end.
+    cbv iota in HL. rewrite HL; auto.
+    + rewrite (set_all_fresh (kv :: r) [(S_name_key, nm)]); auto.
+      intros k Hk. unfold d_mem. cbn [d_find]. rewrite Forall_forall in Hok. destruct (Hok k Hk) as [_ Hn].
+      rewrite Hn. reflexivity.
+    + cbn [length] in *. lia.
+    + intros k Hk. unfold d_mem. cbn [d_find]. rewrite Forall_forall in Hok. destruct (Hok k Hk) as [_ Hn].
+      rewrite Hn. reflexivity.
+Qed.
+
+Section HeadsQuoted.
+  Variable NUM : Type.
+  Variable parse_num parse_float : str -> option NUM.
+  Variable div1000 : NUM -> res NUM.
+  Notation p_sample := (parse_sample false true NUM parse_num parse_float div1000 true).
+  Notation pvt := (parse_value_and_timestamp NUM parse_num parse_float div1000 true).
+
+  (* {"name"} <tail>  and  {"name",labels} <tail> *)
+  Lemma parse_sample_quoted nm kvs tailv nv ts :
+    Forall key_ok (map fst kvs) -> NoDup (map fst kvs) ->
+    pvt (SP :: tailv) = Ok (nv, ts) ->
+    p_sample (LBRACE :: quote (escape nm) ++ rest_text kvs ++ RBRACE :: SP :: tailv)
+    = Ok {| ps_name := nm; ps_labels := kvs; ps_value := nv; ps_ts := ts |}.
+  Proof.
+    intros Hok Hnd Htail. unfold parse_sample.
+    set (inner := quote (escape nm) ++ rest_text kvs).
+    assert (Htext : LBRACE :: quote (escape nm) ++ rest_text kvs ++ RBRACE :: SP :: tailv
+                    = [LBRACE] ++ inner ++ RBRACE :: SP :: tailv)
+      by (subst inner; cbn [app]; rewrite <- app_assoc; reflexivity).
+    rewrite Htext. set (text := [LBRACE] ++ inner ++ RBRACE :: SP :: tailv).
+    assert (Hls : next_unquoted_char text [LBRACE] 0 = 0%Z).
+    { rewrite next_unquoted_char_rel. subst text. cbn [app nuq0].
+      change (LBRACE =? BS) with false. change (LBRACE =? DQ) with false. cbn [andb negb mem_char].
+      change (LBRACE =? LBRACE) with true. reflexivity. }
+    assert (Hinner : forall tl, nuq0 [RBRACE] (inner ++ tl) false false
+                       = option_map (fun k => (length inner + k)%nat) (nuq0 [RBRACE] tl false false)).
+    { intro tl. subst inner. rewrite <- app_assoc.
+      destruct (quoted_scan [RBRACE] nm (rest_text kvs ++ tl) eq_refl) as [Hq _]. rewrite Hq.
+      destruct kvs as [|kv r].
+      - cbn [rest_text app]. rewrite app_nil_r. reflexivity.
+      - cbn [rest_text app nuq0]. change (COMMA =? BS) with false. change (COMMA =? DQ) with false.
+        cbn [andb negb mem_char]. change (COMMA =? RBRACE) with false. cbn [orb andb].
+        rewrite (ltext_scan [RBRACE] (kv :: r) tl chs_ok_rbrace).
+        destruct (nuq0 [RBRACE] tl false false); cbn [option_map]; [|reflexivity].
+        f_equal. rewrite !app_length. cbn [length]. lia. }
+    assert (Hle : next_unquoted_char text [RBRACE] 0 = Z.of_nat (1 + length inner)).
+    { rewrite next_unquoted_char_rel. subst text. cbn [app nuq0].
+      change (LBRACE =? BS) with false. change (LBRACE =? DQ) with false. cbn [andb negb mem_char].
+      change (LBRACE =? RBRACE) with false. cbn [orb andb]. rewrite Hinner.
+      cbn [nuq0]. change (RBRACE =? BS) with false. change (RBRACE =? DQ) with false. cbn [andb negb mem_char].
+      change (RBRACE =? RBRACE) with true. cbn [orb option_map]. f_equal. lia. }
+    rewrite Hls, Hle. cbn [Z.eqb orb].
+    change (slice_to text 0) with (slice_to text (Z.of_nat 0)). rewrite slice_to_firstn by lia. cbn [firstn].
+    change (contains_sub S_exsep []) with false. cbv iota.
+    change (strip []) with (@nil char).
+    assert (Hslice : slice text (0 + 1) (Z.of_nat (1 + length inner)) = inner).
+    { change (0 + 1)%Z with (Z.of_nat 1). subst text.
+      rewrite slice_nat by (rewrite !app_length; cbn [length]; lia).
+      cbn [app skipn]. replace (1 + length inner - 1)%nat with (length inner) by lia.
+      rewrite firstn_app, firstn_all, Nat.sub_diag. cbn [firstn]. apply app_nil_r. }
+    rewrite Hslice. subst inner. rewrite (parse_labels_quoted_name nm kvs Hok Hnd). cbn [bind d_find].
+    rewrite str_eqb_refl. cbn [bind d_remove]. rewrite str_eqb_refl.
+    replace (Z.of_nat (1 + length (quote (escape nm) ++ rest_text kvs)) + 1)%Z
+      with (Z.of_nat (length ([LBRACE] ++ (quote (escape nm) ++ rest_text kvs) ++ [RBRACE])))
+      by (rewrite !app_length; cbn [length]; lia).
+    subst text.
+    replace ([LBRACE] ++ (quote (escape nm) ++ rest_text kvs) ++ RBRACE :: SP :: tailv)
+      with (([LBRACE] ++ (quote (escape nm) ++ rest_text kvs) ++ [RBRACE]) ++ SP :: tailv)
+      by (rewrite <- !app_assoc; reflexivity).
+    rewrite (slice_app_suffix _ _ _ eq_refl), Htail. reflexivity.
+  Qed.
+
+  (* the full sample-line theorem, whatever the sample name *)
+  Theorem text_sample_roundtrip s nv tsv :
+    Forall key_ok (map fst (s_labels s)) -> NoDup (map fst (s_labels s)) ->
+    token_ok (go_string (s_value s)) -> parse_num (go_string (s_value s)) = Some nv ->
+    ts_spec NUM parse_num div1000 s tsv ->
+    exists body, text_sample_line s = body ++ [LF] /\
+      p_sample body = Ok {| ps_name := s_name s; ps_labels := sort_kv (s_labels s); ps_value := nv; ps_ts := tsv |}.
+  Proof.
+    intros Hok Hnd Hv Hpv Hts.
+    destruct (is_valid_legacy_metric_name (s_name s)) eqn:Hn;
+      [apply text_sample_roundtrip_legacy; assumption|].
+    unfold text_sample_line. cbv zeta. rewrite Hn. unfold escape_metric_name. rewrite Hn, escape_chain_eq.
+    set (vt := go_string (s_value s)) in *.
+    assert (Htail : exists tail,
+              (match s_ts_ms s with None => [] | Some ms => SP :: dec_of_Z ms end) = tail /\
+              parse_value_and_timestamp NUM parse_num parse_float div1000 true (SP :: vt ++ tail) = Ok (nv, tsv)).
+    { unfold ts_spec in Hts. destruct (s_ts_ms s) as [ms|].
+      - destruct Hts as (Htok & nt & nts & Hnt & Hd & ->). exists (SP :: dec_of_Z ms). split; [reflexivity|].
+        apply (pvt_value_ts NUM parse_num parse_float div1000 true vt nv (dec_of_Z ms) nt nts); assumption.
+      - subst tsv. exists []. split; [reflexivity|]. rewrite app_nil_r.
+        apply (pvt_value NUM parse_num parse_float div1000 true vt nv); assumption. }
+    destruct Htail as (tail & -> & Hp).
+    assert (Hperm : Permutation (map fst (s_labels s)) (map fst (sort_kv (s_labels s))))
+      by (apply Permutation_map, sort_kv_perm).
+    assert (Hok' : Forall key_ok (map fst (sort_kv (s_labels s)))) by (eapply Permutation_Forall; eauto).
+    assert (Hnd' : NoDup (map fst (sort_kv (s_labels s)))) by (eapply Permutation_NoDup; eauto).
+    exists (LBRACE :: quote (escape (s_name s)) ++ rest_text (sort_kv (s_labels s)) ++ RBRACE :: SP :: vt ++ tail).
+    split; [|apply parse_sample_quoted; assumption].
+    destruct (s_labels s) as [|l0 lr] eqn:El.
+    - cbn [sort_kv fold_right rest_text]. repeat (cbn [app]; rewrite <- ?app_assoc). reflexivity.
+    - rewrite <- El in *. unfold labelstr. rewrite <- ltext_join.
+      assert (Hne : sort_kv (s_labels s) <> []) by (apply sort_kv_nonempty; rewrite El; discriminate).
+      pose proof (ltext_nonempty _ Hne) as Hlne.
+      destruct (sort_kv (s_labels s)) as [|k0 kr] eqn:Esk; [congruence|]. cbn [rest_text].
+      destruct (ltext (k0 :: kr)) as [|t0 tr] eqn:Elt; [congruence|].
+      repeat (cbn [app]; rewrite <- ?app_assoc). reflexivity.
+  Qed.
+End HeadsQuoted.
